@@ -164,6 +164,12 @@ type world struct {
 
 	mutexFree map[string]bool // assumption during the fixpoint
 	mutexDoc  map[string][]string
+
+	// lock nesting (round 6, after seed C13-H): held mutex -> mutex acquired inside one of its critical sections (calls followed)
+	nest      map[[2]string][]string // edge -> sites (documentation)
+	onCycle   map[string]bool        // the mutex can reach itself along nesting edges (a self edge included)
+	lockBad   map[string]bool        // not free, on a cycle, or a critical section of it acquires such a mutex
+	lockOrder []string               // a topological order of the nesting relation (mutexes on cycles last)
 }
 
 type valRef struct {
@@ -251,7 +257,8 @@ func load() (*world, error) {
 		notFollowed: map[[2]string]bool{}, boundary: map[[3]string]bool{}, external: map[string]bool{}, goStmts: map[string]bool{},
 		headed: true, terminal: true, timerOK: true, timerEdges: map[[2]string]bool{}, loopData: map[string][2]bool{},
 		errSends: map[string]bool{}, regionData: map[[2]string]int{}, termSeen: map[*ast.FuncDecl]bool{}, loopSeen: map[ast.Node]bool{},
-		mutexFree: map[string]bool{}, mutexDoc: map[string][]string{}}
+		mutexFree: map[string]bool{}, mutexDoc: map[string][]string{},
+		nest: map[[2]string][]string{}, onCycle: map[string]bool{}, lockBad: map[string]bool{}}
 	exports := map[string]string{}
 	byDir := map[string]*listPkg{}
 	for _, p := range pkgs {
@@ -719,7 +726,7 @@ func (w *world) parking(p Point) bool {
 	switch p.Kind {
 	case 5:
 		free, known := w.mutexFree[p.CName]
-		return known && !free
+		return (known && !free) || w.lockBad[p.CName]
 	case 6:
 		return !p.Flag
 	}
@@ -1924,6 +1931,98 @@ func (w *world) mutexFixpoint(keys []string) {
 			}()))
 		}
 	}
+	// lock nesting: every Lock/RLock met inside a critical section of k (directly or through followed calls, whatever the pair
+	// Lock/RLock: a second RLock parks behind a pending writer) is an edge k -> acquired mutex.  An edge k -> k is a
+	// self-deadlock: sync.Mutex / sync.RWMutex are not re-entrant.
+	w.nest = map[[2]string][]string{}
+	for k, rs := range regs {
+		for _, r := range rs {
+			for _, p := range r.pts {
+				if p.Kind == 5 {
+					e := [2]string{k, p.CName}
+					w.nest[e] = append(w.nest[e], fmt.Sprintf("[%s] acquires at %s (%s): %s", r.where, w.rel2(p), p.Fn, p.Src))
+				}
+			}
+		}
+	}
+	w.lockGraph()
+}
+
+// lockGraph: cycles and a topological order of the nesting relation `w.nest`, over every mutex known to the walks.
+func (w *world) lockGraph() {
+	var keys []string
+	for k := range w.mutexFree {
+		keys = append(keys, k)
+	}
+	sort.Strings(keys)
+	succ := map[string][]string{}
+	for e := range w.nest {
+		succ[e[0]] = append(succ[e[0]], e[1])
+	}
+	for k := range succ {
+		sort.Strings(succ[k])
+	}
+	w.onCycle = map[string]bool{}
+	for _, k := range keys {
+		seen := map[string]bool{}
+		stack := append([]string(nil), succ[k]...)
+		for len(stack) > 0 {
+			x := stack[len(stack)-1]
+			stack = stack[:len(stack)-1]
+			if x == k {
+				w.onCycle[k] = true
+				break
+			}
+			if seen[x] {
+				continue
+			}
+			seen[x] = true
+			stack = append(stack, succ[x]...)
+		}
+	}
+	// Kahn's algorithm (deterministic: smallest name first); what is left over is on or behind a cycle and goes last
+	indeg := map[string]int{}
+	for e := range w.nest {
+		indeg[e[1]]++
+	}
+	done := map[string]bool{}
+	w.lockOrder = nil
+	for progress := true; progress; {
+		progress = false
+		for _, k := range keys {
+			if !done[k] && indeg[k] == 0 {
+				done[k] = true
+				progress = true
+				w.lockOrder = append(w.lockOrder, k)
+				for _, x := range succ[k] {
+					indeg[x]--
+				}
+				break
+			}
+		}
+	}
+	for _, k := range keys {
+		if !done[k] {
+			w.lockOrder = append(w.lockOrder, k)
+		}
+	}
+	// a Lock of m is as good as "m is released by its holders without anybody's help": m's sections hold no parking
+	// operation (mutexFree), m is not on a nesting cycle, and the same goes for everything acquired inside them
+	w.lockBad = map[string]bool{}
+	for _, k := range keys {
+		if !w.mutexFree[k] || w.onCycle[k] {
+			w.lockBad[k] = true
+		}
+	}
+	for changed := true; changed; {
+		changed = false
+		for e := range w.nest {
+			if w.lockBad[e[1]] && !w.lockBad[e[0]] {
+				w.lockBad[e[0]] = true
+				changed = true
+			}
+		}
+	}
 }
 
 func (w *world) rel2(p Point) string {
@@ -2282,6 +2381,9 @@ func analyse() (*world, *table, error) {
 			anyHeld = true
 		}
 	}
+	if len(w.lockBad) > 0 {
+		anyHeld = true
+	}
 	if anyHeld {
 		old := w.loopSeen
 		w.loopSeen = map[ast.Node]bool{}
@@ -2442,6 +2544,35 @@ func Facts() (string, error) {
 		pf("]\n")
 	}
 	pf("/-- the critical sections found (documentation) -/\ndef mutexRegionsDoc : List String := %s\n", strs(mdoc))
+	{
+		var es [][2]string
+		for e := range w.nest {
+			es = append(es, e)
+		}
+		sort.Slice(es, func(i, j int) bool { return es[i][0]+"\x00"+es[i][1] < es[j][0]+"\x00"+es[j][1] })
+		pf("/-- LOCK NESTING: (held mutex code, mutex code acquired - Lock or RLock, directly or through followed calls - inside one of its\n critical sections).  An edge (m, m) is a self-deadlock (sync.Mutex / sync.RWMutex are not re-entrant; RLock inside RLock parks\n behind a pending writer); a cycle is a lock-order inversion.  Spec.C13.C13_lock_order_acyclic decides: no self edge, and\n `lockRank` is a topological order of this relation. -/\ndef lockNesting : List (Nat × Nat) := [")
+		var ndoc []string
+		for i, e := range es {
+			if i > 0 {
+				pf(", ")
+			}
+			pf("(%d, %d)", mid[e[0]], mid[e[1]])
+			ds := append([]string(nil), w.nest[e]...)
+			sort.Strings(ds)
+			for j, d := range ds {
+				if j == 0 || d != ds[j-1] {
+					ndoc = append(ndoc, fmt.Sprintf("%s -> %s %s", e[0], e[1], d))
+				}
+			}
+		}
+		pf("]\n")
+		pf("/-- the sites behind `lockNesting` (documentation): held -> acquired [critical section] acquires at … -/\ndef lockNestingDoc : List String := %s\n", strs(ndoc))
+		var rk []int
+		for _, k := range w.lockOrder {
+			rk = append(rk, mid[k])
+		}
+		pf("/-- a topological order of `lockNesting` computed by the extractor (mutex codes; every mutex of `mutexes` once; mutexes on a\n cycle last) - CHECKED in Lean: every edge must go from an earlier to a strictly later position -/\ndef lockRank : List Nat := %s\n", nats(rk))
+	}
 	pf("/-- COMPLETENESS: calls met on the walks (loops and critical sections) that lead into the repository's own packages, or\n through func values, and could NOT be resolved and followed: (caller, what).  Spec.C13 requires `[]`. -/\n")
 	pf("def callsNotFollowed : List (String × String) := %s\n", pairs(w.notFollowed))
 	pf("/-- the declared boundary: calls of methods of interfaces DECLARED IN THE REPOSITORY (execution, sequencing, DA, store,\n broadcast, signer …) are not followed; (caller, interface.method) -/\n")
@@ -2533,7 +2664,7 @@ func Facts() (string, error) {
 				ch = chanCode(p.CName)
 			case 5:
 				ch = mid[p.CName]
-				flag = w.mutexFree[p.CName]
+				flag = w.mutexFree[p.CName] && !w.lockBad[p.CName]
 			}
 			pf("  (%d, %d, %d, %s)", c, p.Kind, ch, hx.LeanBool(flag))
 			kind := []string{"ctxSelect", "sleep", "send", "recv", "errSend", "lock", "join", "spawn"}[p.Kind]
